@@ -418,7 +418,8 @@ class PE:
         if loc in state.mem:
             return state.mem[loc]
         if loc[0].startswith("@") and not loc[1]:
-            for m in self.prog.modules:
+            home = getattr(self, "home_module", None)
+            for m in ([home] if home is not None else []) + [x for x in self.prog.modules if x is not home]:
                 gg = m.globals.get(loc[0][1:])
                 if gg is not None:
                     if gg.constant and gg.init is not None and gg.init.kind == "int":
@@ -452,7 +453,8 @@ class PE:
         if name in cache:
             return cache[name]
         r = None
-        for m in self.prog.modules:
+        home = getattr(self, "home_module", None)
+        for m in ([home] if home is not None else []) + [x for x in self.prog.modules if x is not home]:
             g = m.globals.get(name)
             if g is not None and g.constant:
                 if g.bytes is not None:
@@ -471,6 +473,7 @@ class PE:
 
     # ---- the walk ---------------------------------------------------------------------------------------
     def run(self, fn, args, state):
+        self.home_module = fn.module      # private globals (string literals) are resolved in the analysed function's module first
         frame = Frame(fn)
         for (t, nm), a in zip(fn.params, args):
             if nm is not None:
